@@ -34,4 +34,14 @@ func init() {
 		},
 		Undecided: []string{"per-second rates (rate.get) - not part of the statement's totals", "that Stop joins all workers (WaitGroup) before the gauge is read: C03"},
 	}
+	propInfo["C12"] = PropInfo{
+		Explanation: "Owicki-Gries proof over atomic actions for ReceiveInsert, ReceiveFeedback, MarkAsFinished, (*reactor).run and Freeze. Shared abstract state: token pool (len/cap), state table (sync.Map as key set + cardinality), input channel, and ghost counters pendIns/pendFin/pendSend/transit/outCnt. Before each atomic action (channel op, select, sync.Map op) the shared state is havocked (any number of other threads, any interleaving) and the global invariant G plus the thread's stable facts are assumed; after the action and its ghost updates G is re-proved (og-guarantee:*). G: tokens in use = tracked + pendIns + pendFin, 0 <= tokens <= cap, every tracked seed is in exactly one place (input channel, in transit, out in the pipeline, or pending its first send). From G and the thread-local facts: `nonblock:*` (the plain send on the input channel in ReceiveInsert, the send case in ReceiveFeedback and the token release in MarkAsFinished can always complete), feedback performs no operation on the token pool (noops:tokenPool), unknown feedback / repeated finish return an error and leave G intact, a frozen or stopped reactor rejects inserts (post:frozen; closing of context channels is irreversible), run() forwards each received seed exactly once or stops.",
+		Assumptions: []string{
+			"channels and sync.Map are linearizable; each operation is one atomic action",
+			"A-own: callers of ReceiveFeedback / MarkAsFinished own the seed they pass (it is out in the pipeline) and ids of concurrently inserted seeds are distinct: stability of the thread-local facts under other threads' actions is argued from this ownership, not mechanically checked",
+			"context.Context.Done() returns one channel per context that is only ever closed",
+			"package-level error variables are non-nil (errors.New)",
+		},
+		Undecided: []string{"every accepted seed eventually reaches the output (liveness)", "absence of deadlock between stages", "Start/Stop lifecycle (sync.Once closure) is not under contract"},
+	}
 }
